@@ -83,6 +83,27 @@ func genPlan(t *rapid.T, tier string) any {
 		}
 		p.Prefix = append(p.Prefix, op)
 	}
+	if nc >= 2 && rapid.IntRange(0, 3).Draw(t, "template") == 0 {
+		// the statement's own scenario: an id that held other content is re-stored with
+		// identical content by two processes while a third looks it up
+		id := 0
+		a, b := 0, 1
+		p.Prefix = []Op{{Kind: "put", ID: id, Content: b}}
+		if rapid.Bool().Draw(t, "prefixsame") {
+			p.Prefix = append(p.Prefix, Op{Kind: "put", ID: id, Content: a})
+		}
+		look := rapid.SampledFrom([]string{"getbytes", "getfile"}).Draw(t, "look")
+		p.Tasks = []TaskPlan{
+			{Proc: 1, Ops: []Op{{Kind: "put", ID: id, Content: a}}},
+			{Proc: 2, Ops: []Op{{Kind: rapid.SampledFrom([]string{"put", "putreader"}).Draw(t, "w2"), ID: id, Content: a}, {Kind: look, ID: id}}},
+			{Proc: 3, Ops: []Op{{Kind: look, ID: id}, {Kind: look, ID: id}, {Kind: look, ID: id}}},
+		}
+		p.Torn = rapid.Bool().Draw(t, "torn")
+		p.ReadChunk = rapid.SampledFrom([]int{64, 512, 4096, 65536}).Draw(t, "readchunk")
+		p.Chunk = rapid.SampledFrom([]int{100, 4096, 1 << 20}).Draw(t, "chunk")
+		p.Sched = gen.Sched(t, 600)
+		return p
+	}
 	np := rapid.IntRange(2, 3).Draw(t, "procs")
 	maxOps := 4
 	if tier == "thorough" {
@@ -463,7 +484,7 @@ var harness = &simcheck.Harness{
 	Property: "C11",
 	Level:    "exploration",
 	Rule: "rapid draws 2-3 simulated processes x 1-2 goroutines x 1-4(5) operations (Put via PutBytes or a chunking reader, GetBytes, GetFile) over 3 ids and up to 4 contents " +
-		"(sizes 0..40000; per id either every writer stores the same content or contents differ), torn page-granular transfers on/off, read and copy chunk sizes, and a schedule; " +
+		"(sizes 0..40000; per id either every writer stores the same content or contents differ; a quarter of the plans instantiate the statement's own scenario: an id holding other content is re-stored identically by two processes while a third looks it up), torn page-granular transfers on/off, read and copy chunk sizes, and a schedule; " +
 		"non-trivial = more context switches than task starts; distinct by decision-trace hash",
 	Gen:     genPlan,
 	NewPlan: func() any { return &Plan{} },
